@@ -2,6 +2,7 @@
 //! usage: verif-harness <property> <tier> <seed> <outfile> [extra...]
 mod c04;
 mod c05;
+mod c07;
 mod c19;
 mod util;
 
@@ -17,6 +18,7 @@ fn main() {
     match prop.as_str() {
         "c04" => c04::run(&mut out, tier, seed),
         "c05" => c05::run(&mut out, tier, seed),
+        "c07" => c07::run(&mut out, tier, seed),
         "c19" => c19::run(&mut out, tier, seed),
         _ => {
             eprintln!("unknown property {prop}");
